@@ -226,6 +226,22 @@ theorem buildLogA_readable (ue ua : Nat → Bool) (feat : MimeFeature) (outdir u
   | nil => rfl
   | cons op rest ih => rw [List.map_cons, List.foldl_cons, List.foldl_cons, stepA_ofOp]; exact ih _
 
+/-- … and so are the names a later `static_name` / `get_names` sees -/
+theorem namesAfterA_readable (ue ua : Nat → Bool) (feat : MimeFeature) (outdir utils : Bytes) (ops : List Op) :
+    namesAfterA ue ua feat outdir utils (ops.map OpA.ofOp) = namesAfter ue ua feat outdir utils ops := by
+  unfold namesAfterA namesAfter
+  have : ∀ (b : Build), (ops.map OpA.ofOp).foldl (Build.stepA ue ua feat outdir) b = ops.foldl (Build.step ue ua feat outdir) b := by
+    induction ops with
+    | nil => intro b; rfl
+    | cons op rest ih => intro b; rw [List.map_cons, List.foldl_cons, List.foldl_cons, stepA_ofOp]; exact ih _
+  rw [this]
+  generalize (List.foldl (Build.step ue ua feat outdir) (Build.new outdir utils) ops).statics = st
+  cases st <;> rfl
+
+/-- a template call — complete or cut short — never touches the statics -/
+theorem templates_leave_statics (ue ua : Nat → Bool) (feat : MimeFeature) (outdir : Bytes) (b : Build) (d : Bytes) (es : List EntryA) :
+    (Build.stepA ue ua feat outdir b (.compileTemplatesA d es)).statics = b.statics := rfl
+
 /-- the two views of a listing agree when nothing in it is unreadable -/
 def noDead : List IEntry → Bool
   | [] => true
